@@ -1,21 +1,21 @@
 CONSTANTS
-  TTLs <- T12
-  Horizon = 4
+  TTLs <- TLongTop
+  Horizon = 90000
   MaxChanges = 1
   MaxQueries = 3
   SignedSet <- OnlyF
   ChildSet <- ChildLong
-  ChildTTLs <- TTLLong
+  ChildTTLs <- TTLDayOnly
   DeepSet <- OnlyF
   ValDelays <- NoDelay
   FloorWins = FALSE
   SelfRefReanchors = FALSE
   Ceil = 43200
-  Jumps <- NoJumps
-  RealTime = TRUE
-  CeilOnCut = TRUE
-  CeilOnStore = TRUE
+  Jumps <- JLong
+  RealTime = FALSE
+  CeilOnCut = FALSE
+  CeilOnStore = FALSE
 INIT Init
 NEXT Next
-INVARIANTS NeverStaleWindow
+INVARIANTS TypeOK LeaseWithinGrant
 CHECK_DEADLOCK FALSE
